@@ -8,7 +8,7 @@
    The per-history agreement of model and server (fresh views at quiescence points included) is checked on every run. *)
 From Coq Require Import List NArith Bool.
 From Gluon Require Import Model.Responders Model.Session Proofs.MirrorProofs Proofs.PopProofs
-  Proofs.ConvergeProofs Proofs.SessionWitness.
+  Proofs.ConvergeProofs Proofs.MembershipProofs Proofs.SessionWitness.
 Import ListNotations.
 Open Scope N_scope.
 
@@ -40,6 +40,44 @@ Theorem C02_exists_then_expunge_nets_zero : forall m u f tg s s1 o1,
   exists k, handle (RExpunge m) s1 = Some (s, [PExpunge k]).
 Proof. exact exists_then_expunge_nets_zero. Qed.
 Print Assumptions C02_exists_then_expunge_nets_zero.
+
+(* Convergence of the MEMBERSHIP (which messages, under which UIDs, in which order) — partial statement, proved:
+   an observer with snapshot snap0 and nothing pending receives any list of foreign updates in order (each one filtered
+   against snapshot + pending responders as the repaired code does) and then performs a permitting flush: the flush
+   succeeds, leaves nothing pending, and the snapshot holds exactly what the updates describe (mem_apply = the plain
+   meaning of an EXISTS / EXPUNGE update for that mailbox). No update is lost by the filters. Flags are not covered by
+   this theorem. *)
+Theorem C02_membership_converges_partial : forall o mb snap0 us, Forall (foreign_upd o) us ->
+  exists st' out,
+    flush_raw true (mkS snap0 (deliver_all o mb snap0 us [])) = Some (st', out) /\
+    s_res st' = [] /\
+    ids_of (s_snap st') = fold_left (fun l u => mem_apply mb u l) us (ids_of snap0).
+Proof. exact observer_membership. Qed.
+Print Assumptions C02_membership_converges_partial.
+
+(* deliver_all is what the model's delivery step does (one update, queue head first) *)
+Theorem C02_deliver_step : forall o mb snap0 u pre q,
+  apply_update u o (obs mb snap0 pre q) false = Some (obs mb snap0 (pre ++ delivered u o (obs mb snap0 pre q)) q, []).
+Proof. exact apply_update_obs. Qed.
+Print Assumptions C02_deliver_step.
+
+(* the database primitives change the rows of a mailbox exactly as the update they emit says *)
+Theorem C02_remove_rows_matches_update : forall w mb m,
+  idl_nodup (rows_ids (mbox_of w mb)) -> (N.to_nat mb < length (w_mbox w))%nat ->
+  let '(w1, ups) := remove_rows w mb [m] in
+  ups = [UExpunge mb m] /\
+  rows_ids (mbox_of w1 mb) = mem_apply mb (UExpunge mb m) (rows_ids (mbox_of w mb)).
+Proof. exact remove_rows_matches_update. Qed.
+Print Assumptions C02_remove_rows_matches_update.
+
+Theorem C02_add_row_matches_update : forall w mb m,
+  (N.to_nat mb < length (w_mbox w))%nat ->
+  idl_all_lt (next_of w mb) (rows_ids (mbox_of w mb)) -> idl_has m (rows_ids (mbox_of w mb)) = false ->
+  let '(w1, items) := add_rows w mb [m] in
+  items = [(m, next_of w mb, flags_of (w_flags w) m)] /\
+  rows_ids (mbox_of w1 mb) = mem_apply mb (UExists mb items None) (rows_ids (mbox_of w mb)).
+Proof. exact add_row_matches_update. Qed.
+Print Assumptions C02_add_row_matches_update.
 
 (* the scenario of the repaired defect, on the world model: session 1 appends a message and expunges it before
    session 0 flushed its EXISTS; after draining and NOOP session 0's view equals the fresh view (empty) *)
